@@ -18,6 +18,7 @@ def step (line : String) : String :=
   | "showunnamed" :: args => runShowUnnamed args
   | "errdisp" :: args => runErrDisp args
   | "dnf" :: args => runDnf args
+  | "tle" :: args => runTle args
   | "iand" :: args => runIand args
   | "iops" :: args => runIops args
   | "ipy" :: args => runIpy args
